@@ -301,6 +301,10 @@ pub struct ChainSession {
     /// consensus parameters in force for the *next* block
     pub params: ConsensusParameters,
     pub params_version: u32,
+    /// the genesis consensus parameters
+    pub initial_params: ConsensusParameters,
+    /// parameters (and their version) that were in force before the last upgrade
+    pub prev_params: Option<(u32, ConsensusParameters)>,
     pub chain_id: ChainId,
     pub owners: Vec<Owner>,
     /// `[0]` is the base asset
@@ -453,8 +457,9 @@ impl ChainSession {
             let pt = Input::predicate_owner(programs::predicate_true());
             let pf = Input::predicate_owner(programs::predicate_false());
             let ph = Input::predicate_owner(programs::predicate_hungry());
-            for o in &owners {
-                for k in 0..cfg.base_coins_per_owner {
+            for (oi, o) in owners.iter().enumerate() {
+                let n_base = cfg.base_coins_per_owner + if oi == 0 && cfg.extra_plain_coins == 0 { 8 } else { 0 };
+                for k in 0..n_base {
                     let amount = match k {
                         0 => 3,
                         1 => 70_000,
@@ -591,8 +596,10 @@ impl ChainSession {
             on_chain,
             relayer,
             executor,
+            initial_params: params.clone(),
             params,
             params_version: 0,
+            prev_params: None,
             chain_id,
             owners,
             assets,
@@ -630,6 +637,8 @@ impl ChainSession {
             executor,
             params: self.params.clone(),
             params_version: self.params_version,
+            initial_params: self.initial_params.clone(),
+            prev_params: self.prev_params.clone(),
             chain_id: self.chain_id,
             owners: self.owners.clone(),
             assets: self.assets.clone(),
@@ -738,7 +747,7 @@ impl ChainSession {
         dry_run: bool,
     ) -> Result<Produced, ExecutorError> {
         if dry_run {
-            let src = HarnessSource::new(source, txs, plan.height.into(), plan.params_version, &self.params);
+            let src = HarnessSource::new(source, txs, plan.height.into(), plan.params_version, &self.params, self.prev_params.as_ref());
             let probe = src.clone();
             let components = Components {
                 header_to_produce: self.header_for(plan),
@@ -777,7 +786,7 @@ impl ChainSession {
         txs: &[PlannedTx],
         source: SourceKind,
     ) -> Result<Produced, ExecutorError> {
-        let src = HarnessSource::new(source, txs, plan.height.into(), plan.params_version, &self.params);
+        let src = HarnessSource::new(source, txs, plan.height.into(), plan.params_version, &self.params, self.prev_params.as_ref());
         let probe = src.clone();
         let components = Components {
             header_to_produce: self.header_for(plan),
@@ -858,6 +867,9 @@ impl ChainSession {
             .next()
             .and_then(|r| r.ok());
         if let Some((v, p)) = latest {
+            if v != self.params_version {
+                self.prev_params = Some((self.params_version, self.params.clone()));
+            }
             self.params_version = v;
             self.params = p;
         }
